@@ -39,6 +39,8 @@ class Contract:
         self.local_sorts = kw.pop("local_sorts", {})
         self.ghost_init = kw.pop("ghost_init", None)
         self.ghost_vars = kw.pop("ghost_vars", [])
+        self.virtual = kw.pop("virtual", False)  # contract of a base-class method that every override must satisfy (no dispatch fork at call sites)
+        self.covers = kw.pop("covers", [])  # conditions that must each be satisfiable together with `requires` (non-vacuity)
         self.logical = kw.pop("logical", {})  # universally quantified logical variables (theorem contracts; not usable at call sites)
         self.pools = kw.pop("pools", {})  # bounded search: value pools per parameter / record field
         self.oracle = kw.pop("oracle", None)  # bounded search: executable oracle in /verif/oracles.py
